@@ -18,7 +18,11 @@ func genC16(seed uint64, tier string, idx int) *Plan {
 	if tier == "thorough" && g.r.chance(5) {
 		mc, cm = 300, 4
 	}
-	g.genUpload(ci, attOpts{maxFiles: 3, maxChunks: mc, chunkMax: cm, withhold: true, grouped: g.r.chance(40)})
+	holes := 0
+	if g.r.chance(2) {
+		holes = g.r.pick(60, 100, 121, 122, 126, 130, 200, 255) // many gaps: every second byte of a file missing
+	}
+	g.genUpload(ci, attOpts{maxFiles: 3, maxChunks: mc, chunkMax: cm, withhold: true, grouped: g.r.chance(40), holes: holes})
 	p.Sched = g.sched()
 	p.MaxStep = 300000
 	return p
@@ -49,6 +53,12 @@ func checkC16(r *Result) []Violation {
 		for _, c := range ctl {
 			if c.unit.ID != 0x1212 || c.reply == nil {
 				continue
+			}
+			if c.over {
+				// known finding: the ranges do not fit into one frame and the encoder neither fragments nor refuses;
+				// the content of the response is still judged below
+				vs = append(vs, Violation{Prop: "C16", Rule: "C16.reply_exceeds_frame", Sig: "C16.reply_exceeds_frame:0x9212_body_over_1023",
+					Msg: fmt.Sprintf("conn %d: the 0x9212 for %q has a body of %d bytes; a frame's length field ends at 1023, the length spills into the encryption bits and no terminal can decode the frame", ci, c.unit.Name, len(c.reply.Body)), Step: c.ev.Step})
 			}
 			b, err := ref.ParseP9212(c.reply.Body)
 			if err != nil {
